@@ -129,8 +129,24 @@ def run(chk):
         chk.saw(CR, "Crystal.density")
         ret = dv.returns[-1].value
         mass = [e for e in dv.events if e.kind == "assign" and e.name == "uc_mass"]
-        okm = bool(mass) and "sum(" in mass[0].value.key() and ".mass" in mass[0].value.key() and "self.unit_cell_atoms()['element']" in mass[0].value.key()
-        chk.ob("R13.5", CR, "Crystal.density", "the mass is summed over every atom of the unit-cell contents", okm,
+        okm = False
+        chk.need(mass, "Crystal.density: uc_mass not found")
+        ma = mass[0].value.as_atom()
+        comp0 = ma[2][0].as_atom() if ma and call_name(ma) in ("sum", "numpy.sum") and len(ma[2]) == 1 else None
+        chk.need(comp0 and comp0[0] == "comp" and "self.unit_cell_atoms()" in mass[0].value.key() and ".mass" in mass[0].value.key(),
+                 f"Crystal.density: unrecognised form of the unit-cell mass: {str(mass[0].value)[:120]}")
+        if mass:
+            if ma and call_name(ma) in ("sum", "numpy.sum") and len(ma[2]) == 1:
+                comp = ma[2][0].as_atom()
+                if comp and comp[0] == "comp" and len(comp[3]) == 1 and comp[3][0][0] == "iter" and not comp[3][0][2] \
+                        and comp[3][0][1].key() == "self.unit_cell_atoms()['element']":
+                    # the summand is the mass of that one atom with weight one: every entry of unit_cell_atoms() is one
+                    # atom (merged sites carry the *sum* of the merged occupancies, so it is not a weight)
+                    elt = comp[2].as_atom()
+                    okm = bool(elt and elt[0] == "attr" and elt[2] == "mass" and elt[1].as_atom() and elt[1].as_atom()[0] == "sub"
+                               and elt[1].as_atom()[1].key().endswith("Element")
+                               and elt[1].as_atom()[2][0].key().startswith("self.unit_cell_atoms()['element'][_it#"))
+        chk.ob("R13.5", CR, "Crystal.density", "the mass is the sum of Element[x].mass over every atom x of the unit-cell contents, each counted once", okm,
                found=str(mass[0].value)[:160] if mass else None)
         vol = P.atom(("call", P.atom(("attr", P.atom(("attr", P.name("self"), "unit_cell")), "volume")), ()))
         okr = bool(mass) and ret == mass[0].value / vol / P.const(Fraction("0.6022"))
